@@ -39,6 +39,9 @@ func refPDRFilter(p *rPDR) (f *refAppFilter, strict bool) {
 	if err != nil || !rf.Dst.Assigned || rf.Src.Assigned || rf.Dst.HasPort || rf.Proto == 0 || rf.Proto == 255 {
 		return nil, false
 	}
+	if rf.Src.HasPort && rf.Src.Lo == 0 && rf.Src.Hi == 65535 {
+		rf.Src.HasPort = false // every port: no constraint (P4Runtime wants a don't-care field left out)
+	}
 	if rf.Src.Len == 0 && !rf.Src.HasPort && rf.Proto < 0 {
 		return nil, true // "from any to assigned": no constraint beyond the UE address
 	}
